@@ -15,7 +15,7 @@ from sim.oracle import Violation
 from sim.scenario import build_scenario
 from sim.tape import Tape
 
-from . import microworld_cancel
+from . import c06_sub, microworld_cancel
 from .c04 import account
 from .common import await_site, base_evidence, bump, digest_of, pair_hash
 from .incremental import run_incremental
@@ -390,9 +390,11 @@ def run_unit(seed=None, unit=None, tier="quick", stats=None):
     if unit is not None:
         world = unit.get("world", "W1")
     else:
-        world = "W2" if seed[2] % 4 == 3 else "W1"
+        world = "SUB" if seed[2] % 8 == 7 else "W2" if seed[2] % 4 == 3 else "W1"
     if world == "W2":
         return microworld_cancel.run_unit(seed=seed, unit=unit, tier=tier, stats=stats, prop=PROP)
+    if world == "SUB":
+        return c06_sub.run_unit(seed=seed, unit=unit, tier=tier, stats=stats, prop=PROP)
     n_sched = 3 if tier == "quick" else 6
     if unit is not None:
         ptape = Tape(values=unit["plan"])
@@ -533,7 +535,8 @@ def evidence(stats, units, distinct, samples, tier, seed, wall, violations):
     stats = dict(stats)
     stats["rejected"] = c.get("rejected", 0)
     return base_evidence(
-        PROP, tier, seed, wall, violations, c.get("execs", 0) + c.get("w2_runs", 0), distinct,
+        PROP, tier, seed, wall, violations,
+        c.get("execs", 0) + c.get("w2_runs", 0) + c.get("sub_runs", 0), distinct,
         "three of four units: a generated request (70% with @defer/@stream) executed through "
         "experimental_execute_incrementally on SimLoop with ExecutionHooks and one stop fault per "
         "request: close of the payload stream after k in 0..4 payloads, or AbortController.abort "
@@ -543,11 +546,13 @@ def evidence(stats, units, distinct, samples, tier, seed, wall, violations):
         "abort is coming; x early execution x queue capacity x pull policy x schedules. Evaluated at "
         "quiescence: caller released, outcome shape, no unfinished task, hanging externals cancelled, "
         "sources closed exactly once, hook exactly once and with nothing of the request unsettled. "
-        "Every fourth unit cancels a W2 work graph (WorkQueue.cancel / consumer aclose) at a seeded "
-        "instant. Distinct = (scenario digest, event-log digest).",
+        "Every eighth unit cancels a W2 work graph (consumer closes after k payloads) and every "
+        "eighth closes a subscription response stream after k responses (four source shapes). "
+        "Distinct = (scenario digest, event-log digest).",
         samples, stats,
         extra={"units": units, "stop_kinds": stats.get("stops", {}),
-               "w2_runs": c.get("w2_runs", 0), "knobs": stats.get("knobs", {})},
+               "w2_runs": c.get("w2_runs", 0), "subscription_runs": c.get("sub_runs", 0),
+               "knobs": stats.get("knobs", {})},
         assumptions=[
             "hooks are only asserted for query/mutation requests (subscribe() takes no hooks)",
             "hanging faults are placed only on awaitables the library itself awaits",
